@@ -52,6 +52,13 @@ Generate(def, i, memo, acc) ==
     IF i > Len(def) THEN acc
     ELSE LET r == AnyField(def, i, 1, memo) IN Generate(def, i + 1, r[2], Append(acc, IF r[1] THEN "educe" ELSE "plain"))
 Selection(def, warm) == Generate(def, 1, Warm(def, warm, EmptyMemo(def)), <<>>)
+(* the same with the objects visited in another order (e.g. grouped by package through a hash map): acc is indexed by type *)
+RECURSIVE GenerateIn(_, _, _, _)
+GenerateIn(def, order, memo, acc) ==
+    IF order = <<>> THEN acc
+    ELSE LET i == Head(order) r == AnyField(def, i, 1, memo) IN
+         GenerateIn(def, Tail(order), r[2], [acc EXCEPT ![i] = IF r[1] THEN "educe" ELSE "plain"])
+SelectionIn(def, order) == GenerateIn(def, order, EmptyMemo(def), [i \in 1..Len(def) |-> "none"])
 
 (* ---- property layer ---- *)
 PlainIsValid(def, sel) == \A i \in 1..Len(def) : sel[i] = "plain" => ~Direct(def, i)
